@@ -369,13 +369,10 @@ func runC06Deep(r *Run, rng *Rng, replay string) {
 					continue
 				}
 				vs := c.variants(arch, format, it)
-				if format == "vop2" {
-					// SDWA: src0 = 249, second dword = vsrc0 | dst_sel<<8 | dst_unused<<11 | src0_sel<<16 | src1_sel<<24
-					for k := 0; k < 2; k++ {
-						w := uint32(c06Src0) | uint32(rng.Intn(7))<<8 | uint32(rng.Intn(3))<<11 | uint32(rng.Intn(7))<<16 | uint32(rng.Intn(7))<<24
-						vs = append(vs, desc{format: format, op: uint32(op), f: map[string]uint32{"src0": 249, "vsrc1": c06Src1, "vdst": c06Dst}, hasLit: true, literal: w})
-					}
-				}
+				// SDWA encodings are not generated here: since the SDWA repair the sub-dword selection
+				// is applied by a state wrapper (emu.NewSDWAState) around the handler, which sees a
+				// plain instruction; the handlers' own `IsSdwa` branches are dead code. SDWA forms
+				// stay covered extensionally (harness/c06.go) and by C03's specification.
 				for vi, d := range vs {
 					inst, words, err := c.decode(arch, d)
 					if err != nil {
